@@ -220,7 +220,11 @@ fn main() {
             let s = "\nab\ncd";
             let r = catch(|| format!("{}", Error::<Rule>::new_from_span(ErrorVariant::CustomError { message: MSG.to_string() }, Span::new(s, 0, 2).unwrap())));
             let fixed = match r { Ok(o) => !o.contains("ab\n\n") && o.contains("ab\u{240a}\n"), Err(_) => false };
-            println!("#PROBE\tfix_continued={}", if fixed { 1 } else { 0 });
+            // K4 witness: "ab" empty span 2..2 renders the text row `1 | ` (as shipped) or `1 | ab`
+            // (fixes/C10-2-empty-span-at-end-line.patch)
+            let r4 = catch(|| format!("{}", Error::<Rule>::new_from_span(ErrorVariant::CustomError { message: MSG.to_string() }, Span::new("ab", 2, 2).unwrap())));
+            let fixed4 = match r4 { Ok(o) => o.contains("1 | ab\n"), Err(_) => false };
+            println!("#PROBE\tfix_continued={}\tfix_eoi_line={}", if fixed { 1 } else { 0 }, if fixed4 { 1 } else { 0 });
             return;
         }
         // every case of one (escaped) string
